@@ -30,7 +30,6 @@ Ceil(n) == (n + SECT - 1) \div SECT
 \* limbs <<q, r>> stand for q * 2048 + r
 Norm(l) == <<l[1] + l[2] \div SECT, l[2] % SECT>>
 LimbsOf(n) == <<n \div SECT, n % SECT>>
-Small(l) == l[1] * SECT + l[2]       \* only used where l[1] is small (directories)
 Indices(s) == DOMAIN s
 
 \* ------------------------------------------------------------------------
@@ -220,10 +219,10 @@ FEInfoLenEqualsADs(r) == \A k \in DOMAIN r.fes : FEOne(r.fes[k])
 DirInfoLenEqualsFIDs(r) ==
     \A k \in DOMAIN r.dirs :
        LET d == r.dirs[k] IN
-       /\ d.fid_bytes = Small(d.info_len)
-       /\ d.data_len = Small(d.info_len)
+       /\ LimbsOf(d.fid_bytes) = d.info_len
+       /\ LimbsOf(d.data_len) = d.info_len
        /\ d.trailing = 0
-       /\ Sum([j \in DOMAIN d.fids |-> d.fids[j].len]) = Small(d.info_len)
+       /\ LimbsOf(Sum([j \in DOMAIN d.fids |-> d.fids[j].len])) = d.info_len
        /\ \A j \in DOMAIN d.fids : d.fids[j].complete
 
 FIDsContiguousAcrossSectors(r) ==
@@ -325,7 +324,8 @@ SizesMatch(r, expect) ==
 \* ------------------------------------------------------------------------
 StepsAccepted(item) == \A k \in DOMAIN item.steps : item.steps[k].x = "ok" => item.steps[k].r = "ok"
 StepsRefused(item) == \A k \in DOMAIN item.steps : item.steps[k].x = "refuse" => item.steps[k].r = "InvalidInput"
-ImageWritten(item) == item.write = "ok"
+\* ("not-attempted": the history ended in a Reopen that failed - StepsAccepted reports it)
+ImageWritten(item) == item.write \in {"ok", "not-attempted"}
 
 F(b, name) == IF b THEN {} ELSE {name}
 
